@@ -394,16 +394,15 @@ def bce_loss_backward(grad: np.ndarray, y_pred: np.ndarray, y_true: np.ndarray) 
 
 
 def bce_with_logits_loss_forward(y_pred: np.ndarray, y_true: np.ndarray) -> np.ndarray:
-    tn = -relu_forward(y_pred)
-    loss = (1-y_true) * y_pred + tn + np.log(np.exp(-tn) + np.exp((-y_pred-tn)))
+    # max(x, 0) - x*t + log(1 + exp(-|x|)): no exponential of a positive number
+    loss = relu_forward(y_pred) - y_pred * y_true + np.log1p(np.exp(-np.abs(y_pred)))
     return loss
 
 def bce_with_logits_loss_backward(grad: np.ndarray, y_pred: np.ndarray, y_true: np.ndarray) -> np.ndarray:
-    tn = -relu_forward(y_pred)
-    dtn = np.where(tn == 0, 0, -1)
-    div1 = -dtn*np.exp(-tn) + (-1-dtn)*np.exp((-y_pred-tn))
-    div2 = np.exp(-tn) + np.exp((-y_pred-tn))
-    loss_grad = (1 - y_true) + dtn + (div1/(div2 + epsilon))
+    # d/dx = sigmoid(x) - t, with the sigmoid evaluated without overflow
+    e = np.exp(-np.abs(y_pred))
+    sigmoid = np.where(y_pred >= 0, 1 / (1 + e), e / (1 + e))
+    loss_grad = sigmoid - y_true
     return grad * loss_grad
 
 
